@@ -867,6 +867,10 @@ func main() {
 		}
 		progs = append(progs, pc{p, inputsFor(rng, p)})
 	}
+	// directed: a program whose emitted code has exactly 2^k lines and jumps to its end (the recorded
+	// finding: the target needs k+1 bits)
+	progs = append(progs, pc{&gogen.Prog{Rsize: 8, Outputs: []int{11}, Vars: []string{"reg_0", "reg_1"},
+		Body: []*gogen.Stmt{{Kind: "for", Body: []*gogen.Stmt{{Kind: "break"}}}}}, nil})
 	lastSites := map[string]int{}
 	hx.Par(len(progs), func(i int) {
 		p, in := progs[i].p, progs[i].in
